@@ -18,7 +18,7 @@ CHECKS = dict([
    "the in-memory file system stubs (harness/stubs.py); the encoders of harness/formats.py as the meaning of 'well-formed file'."),
  T("C02", "the five writers on trees built through the Tree API for all shapes up to 3 constituents / 3 tokens (thorough 4/4), a field "
    "condition ranging over word alphabet (XML-special, non-ASCII, parentheses, tab-stop lengths 7/8/15/16) and absent/default/present "
-   "lemma, morph, edge, a decoration condition over option subsets and per-node flags, and export_tabs for every integer length (unbounded).",
+   "lemma, morph, edge, a decoration condition over option subsets and per-node flags, two trees written in sequence by the same writer, and export_tabs for every integer length (unbounded).",
    "Right level: 'an independent decoder recovers ...' is a for-all over trees and option subsets; decoders are harness-owned.",
    "the decoders of harness/formats.py; pure-Python output stream."),
  T("C03", "transform.run (and the treetools script's main()) in-process on an in-memory file system for symbolic source format x destination "
@@ -37,7 +37,7 @@ CHECKS = dict([
    "set-based expected grammar (rules, linearizations, vertical contexts, counts), fan-outs, lexicon and context-freeness.",
    "Right level: full equality of the extracted grammar with an independently computed one on every bounded treebank.",
    "block positions on arbitrary symbolic integers are discharged under C16."),
- T("C07", "grammar.binarize on a symbolic canonical LCFRS rule (V <= 4 variables, rank <= 4; thorough V <= 6) in both reorderings, deterministic and "
+ T("C07", "grammar.binarize on a symbolic canonical LCFRS rule (V <= 4 variables, rank <= 4; thorough V <= 6), on rules with 5 and 6 right-hand-side elements with symbolic argument cuts, on two different symbolic trees extracted into one grammar, in both reorderings, deterministic and "
    "markovized (v, h in 0..2, thorough 0..3, nofanout), and on grammars extracted from every tree shape of the bound; oracle composes chains of "
    "binarized rules over named blocks.",
    "Right level: the canonical-rule space is finite per bound and is enumerated by the solver through the canonical-form precondition.",
@@ -69,10 +69,10 @@ CHECKS = dict([
    "and collapse/uncollapse on every shape with unary chains up to length 4.",
    "Right level: reversibility is an equation on every input of the bound.", "nothing beyond the common base."),
  T("C15", "negra_mark_heads on one constituent with up to 4 children and every edge assignment plus whole trees; mark_heads_by_rules for every parent "
-   "category of the preset tables (read from /repo at run time), symbolic listed child category, position and label decoration; rejection cases.",
+   "category of the preset tables (read from /repo at run time), symbolic listed child category, position and label decoration; exactly-one-head for every parent category incl. those with an empty rule and an unknown one; rejection cases.",
    "Right level: the rule is a finite decision table per constituent.", "the reading of 'listed' = any space-separated entry of the parent's rule."),
  T("C16", "gap_degree_node / terminal_blocks / gap_degree on skeletons up to 3 constituents / 4 tokens (thorough 4 / 5) with ARBITRARY pairwise distinct "
-   "symbolic token positions (unbounded); agreement of the three notions of discontinuity; treeanalysis.run in-process; disco_order.",
+   "symbolic token positions (unbounded); agreement of the three notions of discontinuity; treeanalysis.run in-process (sentence order symbolic); the analysis before and after transformations of the same tree; disco_order.",
    "Right level: positions are only compared and incremented, so each path stands for infinitely many position assignments.",
    "file system stubs for the command-line path."),
  T("C17", "Engine B: the current source of parse_split_specification is interpreted symbolically (vlib/pysym.py) for every specification pattern of up "
@@ -81,12 +81,12 @@ CHECKS = dict([
    "function, and transform.run --split in-process for every output format, specification selector and filter on corpora of up to 3 (thorough 6) sentences.",
    "Right level: the arithmetic kernel is pure integer code (a for-all over integers); the distribution part is a bounded configuration space.",
    "pysym's translation (validated on every run against the real function on 10 concrete inputs incl. the repository's test input); file system stubs.", TECHB),
- T("C18", "all histories of up to 2 (thorough 3) commands from an alphabet of 16 real command invocations followed by every probe command, in one "
-   "process without resets, compared with the value the probe produces in a fresh process; additivity result(A+B) = result(A)++result(B) for 10 operations on a symbolic tree.",
+ T("C18", "all histories of up to 2 (thorough 3) commands from an alphabet of 21 real command invocations followed by every probe command, in one "
+   "process without resets, compared with the value the probe produces in a fresh process; additivity result(A+B) = result(A)++result(B) for 12 operations on a symbolic tree.",
    "Right level: history independence is a for-all over call sequences; the solver exhausts the bounded sequence space.",
    "fresh-process baseline computed by plain runs under four hash seeds (an auxiliary concrete observation, stated in the evidence); hash seeds beyond those are outside."),
  T("C19", "the navigation API and export numbering on skeletons up to 3 constituents / 4 tokens (thorough 4 / 4 and 3 / 5), child lists forward or reversed, "
-   "with ARBITRARY pairwise distinct symbolic token positions (unbounded).",
+   "with ARBITRARY pairwise distinct symbolic token positions (unbounded); levels and numbering recomputed after the tree was restructured.",
    "Right level: set-based model equality on every shape; positions symbolic.", "nothing beyond the common base."),
  T("C20", "parse_label/format_label on a symbolic string (all strings up to length 4, thorough 6, over A 1 - = # ' *; default literals spliced in at a "
    "symbolic position) against a reference splitter, component clearing, trace test; get_label over option subsets.",
